@@ -17,7 +17,7 @@ import json, os
 import lib, gen, mcb_oracle as O
 
 PID = "C08"
-THEOREMS = ["Properties_C08.v"]
+THEOREMS = ["Properties_C08.v", "Properties_C08_variants.v"]
 LIBS = ["-ltbb", "-lboost_timer"]
 ALGS = ["signed", "fvs", "iso", "signed_tbb", "fvs_tbb", "iso_tbb"]
 INT_LIMIT = 2 ** 31 - 1
